@@ -1129,10 +1129,10 @@ def ev_table(case, res, cx):
             elif k.isdigit() and k != "0" and Fraction(G.SYMBOLIC_TO_INT_DURS[v]) != int(k):
                 bad(int(k), G.SYMBOLIC_TO_INT_DURS[v], "MEI_DURS_TO_SYMBOLIC[%r] vs SYMBOLIC_TO_INT_DURS" % k)
     elif name == "clef-tables":
-        if sorted(G.CLEF_TO_INT) != sorted(CLEF_SIGNS):
-            bad(sorted(CLEF_SIGNS), sorted(G.CLEF_TO_INT), "globals.CLEF_TO_INT keys")
+        if sorted(G.CLEF_TO_INT, key=repr) != sorted(CLEF_SIGNS, key=repr):
+            bad(sorted(CLEF_SIGNS, key=repr), sorted(G.CLEF_TO_INT, key=repr), "globals.CLEF_TO_INT keys")
         if len(set(G.CLEF_TO_INT.values())) != len(G.CLEF_TO_INT):
-            bad("distinct codes", sorted(G.CLEF_TO_INT.values()), "globals.CLEF_TO_INT")
+            bad("distinct codes", sorted(G.CLEF_TO_INT.values(), key=repr), "globals.CLEF_TO_INT")
         for s, c in G.CLEF_TO_INT.items():
             if G.INT_TO_CLEF.get(c) != s:
                 bad(s, G.INT_TO_CLEF.get(c), "INT_TO_CLEF[CLEF_TO_INT[%r]]" % s)
